@@ -53,11 +53,17 @@ func mkCrit(c *core.Ctx, kind string, recs []R, dir string) crit {
 			re := rx(p)
 			return crit{kind, []string{"-a", "sample=" + p}, func(r R) bool { return r.Sample != "" && re.MatchString(r.Sample) }}
 		}
+		if c.Rng.Intn(5) == 0 {
+			// a pattern on a key that is the name of a part of the record, not of an annotation
+			key := []string{"id", "sequence"}[c.Rng.Intn(2)]
+			return crit{kind, []string{"-a", key + "=^[a-z]"}, func(r R) bool { return false }}
+		}
 		p := []string{"^1", "^[0-5]$", "1$"}[c.Rng.Intn(3)]
 		re := rx(p)
 		return crit{kind, []string{"-a", "k=" + p}, func(r R) bool { return r.K >= 0 && re.MatchString(fmt.Sprint(r.K)) }}
 	case "-A":
-		k := []string{"sample", "k", "count", "definition", "nosuchkey"}[c.Rng.Intn(5)]
+		// "id", "sequence" and "qualities" are parts of a record, not annotations: no record has them
+		k := []string{"sample", "k", "count", "definition", "nosuchkey", "id", "sequence", "qualities"}[c.Rng.Intn(8)]
 		return crit{kind, []string{"-A", k}, func(r R) bool { _, ok := r.annotations()[k]; return ok }}
 	case "--id-list":
 		set := map[string]bool{}
@@ -69,6 +75,12 @@ func mkCrit(c *core.Ctx, kind string, recs []R, dir string) crit {
 			}
 		}
 		lines = append(lines, "not_an_id")
+		if c.Rng.Intn(3) == 0 && len(lines) > 2 {
+			// a very long line (longer than the 64 KiB of the usual line scanners) in the middle of the list
+			at := 1 + c.Rng.Intn(len(lines)-1)
+			long := strings.Repeat("x", []int{4096, 65535, 65536, 70000, 200000}[c.Rng.Intn(5)])
+			lines = append(lines[:at], append([]string{long}, lines[at:]...)...)
+		}
 		p := filepath.Join(dir, fmt.Sprintf("ids-%d.txt", c.Rng.Intn(1e9)))
 		os.WriteFile(p, []byte(strings.Join(lines, "\n")+"\n"), 0o644)
 		return crit{kind, []string{"--id-list", p}, func(r R) bool { return set[r.ID] }}
